@@ -188,3 +188,57 @@ pub fn check_vector(vec: &J) -> J {
     }
     json!({"id": id, "ok": true, "definite": definite, "n": n})
 }
+
+
+/// C15: join a token sequence with trivia, parse it with jaq's parser, compare the tree.
+/// The trivia variants exercise whitespace, newlines, comments and their backslash continuation rule.
+pub fn check_parse(vec: &J) -> J {
+    use jaq_core::load::{parse, Lexer, Parser};
+    let id = vec["id"].clone();
+    let toks: Vec<&str> = vec["tokens"].as_array().map(|a| a.iter().filter_map(|t| t.as_str()).collect()).unwrap_or_default();
+    let expect_reject = vec["reject"].as_bool().unwrap_or(false);
+    let variants: [&dyn Fn(usize) -> String; 6] = [
+        &|_| " ".into(),
+        &|_| "\n".into(),
+        &|i| if i % 3 == 0 { " # comment | , ) \n ".into() } else { " ".into() },
+        // an odd number of backslashes continues the comment on the next line, an even number does not
+        &|i| if i % 2 == 0 { " # c \\\n still ( comment \n".into() } else { "\t".into() },
+        &|i| if i % 2 == 1 { " # c \\\\\n ".into() } else { "  ".into() },
+        &|i| if i % 4 == 1 { "\r\n# c \\\r\n also comment\r\n".into() } else { " ".into() },
+    ];
+    for (vi, tr) in variants.iter().enumerate() {
+        let mut text = String::new();
+        for (i, t) in toks.iter().enumerate() {
+            if i > 0 {
+                text.push_str(&tr(i));
+            }
+            text.push_str(t);
+        }
+        let parsed: Option<J> = Lexer::new(&text).lex().ok().and_then(|tokens| {
+            let t: Result<parse::Term<&str>, _> = Parser::new(&tokens).parse(|p| p.term());
+            t.ok().and_then(|t| enc::term_to_json(&t).ok())
+        });
+        match (parsed, expect_reject) {
+            (None, true) => (),
+            (Some(t), true) => return json!({"id": id, "ok": false, "why": format!("should be rejected but parses as {t}"), "text": text, "vec": vec}),
+            (None, false) => return json!({"id": id, "ok": false, "why": format!("does not parse (trivia variant {vi})"), "text": text, "vec": vec}),
+            (Some(t), false) => {
+                if t != vec["tree"] {
+                    return json!({"id": id, "ok": false, "why": format!("trivia variant {vi}: parsed as {t}"), "text": text, "vec": vec});
+                }
+            }
+        }
+    }
+    json!({"id": id, "ok": true, "definite": true, "n": 1})
+}
+
+
+/// C15: a text that is not a program of the documented grammar must be rejected when it is loaded/compiled.
+pub fn check_reject(vec: &J) -> J {
+    let id = vec["id"].clone();
+    let text = vec["text"].as_str().unwrap_or("");
+    match compile(text, &[]) {
+        Err(_) => json!({"id": id, "ok": true, "definite": true, "n": 1}),
+        Ok(_) => json!({"id": id, "ok": false, "why": "an ill-formed program was accepted", "text": text, "vec": vec}),
+    }
+}
